@@ -2,6 +2,7 @@
 // exact-size heap blocks and which logs every Get/Set, access to the entries of a real Baggage, and
 // an independently written reference decoder for the baggage header (three-valued).
 #pragma once
+#include <algorithm>
 #include <map>
 #include <memory>
 #include <string>
@@ -192,7 +193,13 @@ inline Member classify_member(const std::string &raw) {
 struct Expectation {
   std::vector<Member> members;  // non-empty members in header order
   bool must_be_empty = false;   // header beyond the size limit
-  bool complete = true;         // completeness is judged (header within limits, <= 180 members)
+  bool complete = true;         // header within all limits (<= 8192 bytes, <= 180 non-empty members)
+  // Completeness is judged for the first keep_prefix members: all of them when the header is within
+  // the limits; the first 180 (non-empty) members when there are more than 180 - "honours the
+  // 180-member limit" may mean "at most 180 entries are kept" or "at most 180 members are read",
+  // and under both readings a valid member among the first 180 members is kept; which members
+  // beyond the 180th survive is don't-care. 0 for a header beyond the size limit.
+  size_t keep_prefix = 0;
 };
 
 inline Expectation expect_for(const std::string &header) {
@@ -212,11 +219,14 @@ inline Expectation expect_for(const std::string &header) {
     if (trim_by(header, is_cspace).size() > kMaxHeaderBytes) x.must_be_empty = true;
   }
   if (x.members.size() > kMaxMembers) x.complete = false;
+  if (header.size() <= kMaxHeaderBytes) x.keep_prefix = std::min(x.members.size(), kMaxMembers);
   return x;
 }
 
-// Is `got` an order-preserving selection of member readings that contains every must-keep member?
-inline bool explains(const std::vector<Member> &ms, const List &got, bool completeness) {
+// Is `got` an order-preserving selection of member readings that contains every must-keep member
+// among the first `keep_prefix` members? (keep_prefix = 0: soundness only)
+struct KeepPrefix { size_t n; };
+inline bool explains(const std::vector<Member> &ms, const List &got, KeepPrefix keep) {
   size_t M = ms.size(), G = got.size();
   // f[i][j]: members i.. can produce got j..   (filled backwards)
   std::vector<std::vector<char>> f(M + 1, std::vector<char>(G + 1, 0));
@@ -224,7 +234,7 @@ inline bool explains(const std::vector<Member> &ms, const List &got, bool comple
   for (size_t i = M; i-- > 0;) {
     for (size_t j = G + 1; j-- > 0;) {
       bool ok = false;
-      if (!(completeness && ms[i].must_keep)) ok = f[i + 1][j];
+      if (!(i < keep.n && ms[i].must_keep)) ok = f[i + 1][j];
       if (!ok && j < G && f[i + 1][j + 1])
         for (auto &r : ms[i].readings) if (r == got[j]) { ok = true; break; }
       f[i][j] = ok;
